@@ -11,6 +11,8 @@
  3. with --keep: store patch.diff, demo.rs and meta.json under /verif/seeded/<property>-<name>/.
 """
 import json, os, shutil, subprocess, sys, tempfile, time
+import os as _os
+_os.environ["RUST_BACKTRACE"] = "0"    # demos with allocator oracles must not see the backtrace machinery allocate
 HERE = os.path.dirname(os.path.dirname(os.path.abspath(__file__)))
 sys.path.insert(0, HERE)
 REPO = "/repo"
